@@ -144,7 +144,9 @@ def run(ctx):
     ctx.extra["derivative_notes"] = dn
     ctx.log(f"notes (not part of the verdict): D(Term, x) vs central difference {dn.get('d_self_ok', 0)} ok / {dn.get('d_self_bad', 0)} off; "
             f"derivatives handed out by the Gaussian families vs D(Term, x): {dn.get('jac_ok', 0)} ok / {dn.get('jac_bad', 0)} off"
-            + (f" e.g. {dn['jac_example']}" if dn.get("jac_example") else ""))
+            + (f" e.g. {dn['jac_example']}" if dn.get("jac_example") else "")
+            + f"; corrected survival predicted by the Weibull families vs exp(LogSurvivalTerm(t) - LogSurvivalTerm(t0)): {dn.get('pred_ok', 0)} ok / {dn.get('pred_bad', 0)} off"
+            + (f" e.g. {dn['pred_example']}" if dn.get("pred_example") else ""))
     if not ok:
         for r in recs:
             if not (r["all_match"] and r["all_finite"] and r["layouts_match"] and r["routes_agree"]):
